@@ -52,7 +52,12 @@ def cases(draw):
     bundle.append({"how": "string", "text": s})
     n = draw(st.integers(1, 4))
     for _ in range(n):
-        how = draw(st.sampled_from(["same-forced", "same-uri", "same-fields", "same-query", "other", "junk", "variant", "copy"]))
+        how = draw(st.sampled_from(["same-forced", "same-uri", "same-fields", "same-query", "other", "junk", "variant", "copy",
+                                    "unapplied-query"]))
+        if how == "unapplied-query":
+            # the same Sid carrying a query that cannot be applied: type and fields of the base, another string and uri
+            bundle.append({"how": "string", "text": s + "?" + draw(st.sampled_from(["nokey=x", "nokey=y", m.keys(t)[0] + "=zz9"]))})
+            continue
         if how == "same-forced":
             sibs = [x for x in m.types if set(m.keys(x)) == set(m.keys(t))]
             bundle.append({"how": "string", "text": draw(st.sampled_from(sibs)) + ":" + s})
